@@ -50,6 +50,9 @@ class ExcelCompiler:
 
     save_file_extensions = ('pkl', 'pickle', 'yml', 'yaml', 'json')
 
+    # results stored in the workbook are valid until an input is changed
+    _stored_results_valid = True
+
     def __init__(self, filename=None, excel=None, plugins=None, cycles=None):
         """ Build a compiler instance to organize the formula for a workbook
 
@@ -460,6 +463,9 @@ class ExcelCompiler:
             if not self.cycles:
                 self._reset(cell_or_range, force=True)
 
+                # formulas built from here on can not start with their stored result
+                self._stored_results_valid = False
+
             # set the value
             cell_or_range.value = value
 
@@ -722,9 +728,14 @@ class ExcelCompiler:
             # stick in queue to add edges
             self.graph_todos.append(node)
 
+        def stored_value(value, formula):
+            return value if self._stored_results_valid or not formula else None
+
         def build_cell(excel_cell):
-            a_cell = self.Cell(excel_cell.address, value=excel_cell.values,
-                               formula=excel_cell.formula, excel=self.excel)
+            a_cell = self.Cell(
+                excel_cell.address,
+                value=stored_value(excel_cell.values, excel_cell.formula),
+                formula=excel_cell.formula, excel=self.excel)
             self.cell_map[str(excel_cell.address)] = a_cell
             return [a_cell]
 
@@ -736,7 +747,8 @@ class ExcelCompiler:
             if isinstance(excel_range.formula, tuple):
                 for addr, value, formula in a_range.cells_to_build(excel_range):
                     if addr.address not in self.cell_map:
-                        a_cell = self.Cell(addr, value, formula, self.excel)
+                        a_cell = self.Cell(
+                            addr, stored_value(value, formula), formula, self.excel)
                         self.cell_map[addr.address] = a_cell
                         added.append(a_cell)
             else:
